@@ -8,17 +8,17 @@ PROJ = ("proved for the per-function / per-step projection under the stated kern
         "support; liveness is out of reach)")
 
 CLAIMS = {
- "C01": dict(text="Deductive: the real bodies of Unreader.read/unread, Request.get_data/read_line, ChunkedReader.get_data, LengthReader.read, Message.set_body_reader (header-level framing clauses: unique numeric Content-Length, CL+TE, TE on HTTP/1.0, chunked needs TE) and Message.parse_headers (trailer cases: token names, colon placement, no NUL/CR/LF, order, count limit) are symbolically executed from /repo on every run and every postcondition / call precondition / raise condition is discharged by z3 (cvc5 on unknowns) for ALL byte streams, positions and read segmentations (windows of one ghost stream). A failed obligation is reported as the violation. The Transfer-Encoding element grammar, the header path of parse_headers and chunk syntax are decided only by the bounded differential stand-in against an independent RFC 9112 reference (27k stream x segmentation evaluations), labelled bounded.",
+ "C01": dict(text="Deductive: the real bodies of Unreader.read/unread, Request.get_data/read_line, ChunkedReader.get_data, LengthReader.read, Message.set_body_reader (header-level framing clauses: unique numeric Content-Length, CL+TE, TE on HTTP/1.0, chunked needs TE) Message.parse_request_line, Request.parse, Parser.__next__, ChunkedReader.parse_chunk_size / parse_chunked / parse_trailers and Message.parse_headers (all four header / trailer x tcp / unix cases: token names, colon placement, only OWS trimmed on both sides, no NUL/CR/LF, stream order, field count and field size within the limits) are symbolically executed from /repo on every run and every postcondition / call precondition / raise condition is discharged by z3 (cvc5 on unknowns) for ALL byte streams, positions and read segmentations (windows of one ghost stream). A failed obligation is reported as the violation. The Transfer-Encoding element grammar and completeness of the header list are decided only by the bounded differential stand-in against an independent RFC 9112 reference (29k stream x segmentation evaluations), labelled bounded.",
              note="trusted: byte-source model (Unreader.chunk), string/regex/BytesIO stubs (differentially tested), ghost fcrlf definition, decval/hexval uninterpreted; documented-unsafe parser switches excluded by precondition; known finding KF-C01-te-without-final-chunked",
              technique="contract-based deductive verification (ast->SMT VC generation, z3/cvc5) + bounded differential stand-in", ref="4 C01"),
- "C06": dict(text="Deductive, by construction of the contracts: every ensures/raises clause of the parser contracts (Unreader.read/unread, get_data, read_line, LengthReader.read, set_body_reader, parse_headers) is a function of the ghost stream T, its length, the start position and the configuration only; the sizes of the individual reads are universally quantified symbols of the byte-source model and occur in no postcondition, and read_line's raise conditions are proved two-sided (raise <=> stream predicate). Hence two segmentations of the same stream cannot be told apart by these functions. Request.parse's buffer-limit path and the chunked reader are covered by the bounded stand-in (same stream under whole / bytewise / every single cut / random cuts).",
-             note="same trusted base as C01; Request.parse, ChunkedReader.parse_chunked/parse_chunk_size/parse_trailers are bounded only (see evidence.bounded)",
+ "C06": dict(text="Deductive, by construction of the contracts: every ensures/raises clause of the parser contracts (Unreader.read/unread, get_data, read_line, LengthReader.read, set_body_reader, parse_headers) is a function of the ghost stream T, its length, the start position and the configuration only; the sizes of the individual reads are universally quantified symbols of the byte-source model and occur in no postcondition, and read_line's raise conditions are proved two-sided (raise <=> stream predicate). Hence two segmentations of the same stream cannot be told apart by these functions. The same streams are additionally replayed under whole / bytewise / every single cut / random cuts by the bounded stand-in, and the engine's string stubs are differential-tested against CPython (stubtest, ~10k evaluations) in this check.",
+             note="same trusted base as C01; completeness of the header list and the TE element grammar are bounded only (see evidence.not_decided)",
              technique="contract-based deductive verification (segmentation-independent postconditions over a ghost stream) + bounded stand-in", ref="4 C06"),
  "C07": dict(text="Deductive: Body.read/readline/readlines/__next__ are proved to implement binary-file semantics (exact result window, cursor advance, EOF forever via cursor==end) over an abstract reader for ALL bodies, cursors, buffered prefixes and sizes (None, negative, 0, any int), with Houdini-selected loop invariants over the 1024-byte refill loops; LengthReader.read is proved to implement that abstract reader over the ghost stream and to push back exactly the surplus (next request starts at the first byte after the body); Unreader.read/unread carry the position. ChunkedReader as a reader and Parser.__next__'s drain loop are covered by the bounded stand-in (12k call-program x framing x segmentation cases against io.BytesIO and a pipelined next request).",
              note="trusted: abstract reader interface for Body (discharged for LengthReader, bounded for ChunkedReader), bodies shorter than sys.maxsize, BytesIO model (append mode + position 0 of BytesIO(initial))",
              technique="contract-based deductive verification (representation invariant + exact postconditions, z3) + bounded stand-in", ref="4 C07"),
- "C12": dict(text="Deductive: Request.read_line is proved sound AND complete for the request-line limit (LimitRequestLine raised iff the line - first CRLF, or the rest of the stream if none - exceeds the limit, for every segmentation; NoMoreData otherwise), parse_headers (trailer cases) never returns more than limit_request_fields fields. Field-size limits, the header-block buffer bound in Request.parse and 'within limits => not rejected for size' are decided by the bounded stand-in on explicit small limits at, just under and just over each boundary. No bound exists in the code for chunk-size lines / trailer blocks: not claimed.",
-             note="same trusted base as C01; limits other than the request line are bounded only",
+ "C12": dict(text="Deductive: Request.read_line is proved sound AND complete for the request-line limit (LimitRequestLine raised iff the line - first CRLF, or the rest of the stream if none - exceeds the limit, for every segmentation; NoMoreData otherwise), parse_headers never returns more than limit_request_fields fields and counts every field line (also dropped ones, defect fixed in /repo 11d7eb4), every kept field line is within limit_request_field_size, the header-block buffer bound in Request.parse is independent of segmentation (defect fixed in 8186d0d). 'Within limits => not rejected for size' and the boundary values are decided by the bounded stand-in on explicit small limits at, just under and just over each boundary. No bound exists in the code for chunk-size lines / trailer blocks: not claimed.",
+             note="same trusted base as C01; completeness direction ('within limits => accepted') for header limits is bounded only; no bound exists for chunk-size lines / trailer blocks (not claimed)",
              technique="contract-based deductive verification (two-sided raise conditions) + bounded boundary-value stand-in", ref="4 C12"),
 }
 extra = {}
